@@ -1,1 +1,283 @@
-"""placeholder"""
+"""List-valued links: R-LISTAPI, R-LISTPAIR, R-LISTSIB, R-LIVE (DESIGN §5.E)."""
+import ast
+
+from . import rule
+from ..frontend import AnalysisError, norm
+from ..report import Finding, RuleResult
+
+LL = "abstract_modeling_classes/list_linked_to_modeling_obj.py"
+MU = "abstract_modeling_classes/modeling_update.py"
+
+# mutating methods of the built-in list (Python data model)
+LIST_MUTATORS = ["append", "extend", "insert", "pop", "remove", "clear", "sort", "reverse", "__setitem__", "__delitem__",
+                 "__iadd__", "__imul__"]
+ORDER_ONLY = {"sort", "reverse"}
+# which list links are read order-sensitively by some rule (confirmed by reading; anchor re-checked on every run)
+ORDER_SENSITIVE = {("UsageJourney", "uj_steps"): "JobBase.compute_hourly_occurrences_for_usage_pattern shifts a job by the "
+                                                 "running sum of the preceding steps' user_time_spent"}
+
+
+def _calls(node):
+    out = [n for n in ast.walk(node) if isinstance(n, ast.Call)]
+    out.sort(key=lambda c: (c.lineno, c.col_offset))
+    return out
+
+
+def _cls(pm):
+    rel, c = pm.find_function(LL, "ListLinkedToModelingObj")
+    return rel, c, {f.name: f for f in c.body if isinstance(f, ast.FunctionDef)}
+
+
+def _order_sensitive_anchor(pm):
+    """the loop over uj_steps with a loop-carried delay that is used before being updated"""
+    rel, fn = pm.find_function("core/usage/job.py", "JobBase.compute_hourly_occurrences_for_usage_pattern")
+    for loop in [n for n in ast.walk(fn) if isinstance(n, ast.For)]:
+        if norm(loop.iter).endswith(".uj_steps"):
+            aug = [n for n in loop.body if isinstance(n, ast.AugAssign) and isinstance(n.target, ast.Name)]
+            for a in aug:
+                used_before = any(isinstance(x, ast.Name) and x.id == a.target.id and x.lineno < a.lineno
+                                  for x in ast.walk(loop))
+                if used_before:
+                    return True
+    return False
+
+
+@rule("R-LISTAPI")
+def r_listapi(E):
+    pm = E.pm
+    res = RuleResult("R-LISTAPI", "every mutating method of the built-in list is overridden by ListLinkedToModelingObj "
+                                  "(an inherited mutator changes the model without a ModelingUpdate and without "
+                                  "registering reverse links); order-only ones matter when a list link is read in order")
+    rel, c, ms = _cls(pm)
+    sensitive = _order_sensitive_anchor(pm)
+    for m in LIST_MUTATORS:
+        res.instances += 1
+        if m in ms:
+            if len(res.samples) < 4:
+                res.samples.append({"mutator": m, "verdict": "overridden"})
+            continue
+        if m in ORDER_ONLY and not sensitive:
+            res.notes.append(f"{m} is inherited but no list link is read order-sensitively any more")
+            continue
+        why = ("UsageJourney.uj_steps is read in order (" + ORDER_SENSITIVE[("UsageJourney", "uj_steps")] + ")") \
+            if m in ORDER_ONLY else "it adds or removes elements"
+        res.findings.append(Finding(
+            "R-LISTAPI", f"ListLinkedToModelingObj inherits list.{m}",
+            f"ListLinkedToModelingObj does not override list.{m}; {why}: calling it changes the model with no "
+            f"recomputation and no link bookkeeping", rel, c.lineno, "ListLinkedToModelingObj"))
+    res.breakdown = {"overridden": sorted(m for m in LIST_MUTATORS if m in ms),
+                     "order_sensitive_list_links": {f"{k[0]}.{k[1]}": v for k, v in ORDER_SENSITIVE.items()} if sensitive else {}}
+    res.floor = 12
+    return res
+
+
+ADDERS = {"__setitem__": "value", "append": "value", "insert": "value"}
+ATTACH_ARGS = ["self.modeling_obj_container", "self.attr_name_in_mod_obj_container"]
+
+
+@rule("R-LISTPAIR")
+def r_listpair(E):
+    pm = E.pm
+    res = RuleResult("R-LISTPAIR", "in each list mutator every element handed to the underlying list is a fresh link "
+                                   "wrapper attached with the list's own (container, attribute name), every element "
+                                   "taken out is the stored element and is detached with (None, None), the type check "
+                                   "comes first, and index-taking mutators handle slices")
+    rel, c, ms = _cls(pm)
+    W = "ListLinkedToModelingObj"
+    for m in ("__setitem__", "append", "insert", "extend", "pop", "remove", "clear", "__delitem__", "__imul__"):
+        fn = ms.get(m)
+        if fn is None:
+            continue
+        res.instances += 1
+        where = f"{W}.{m}"
+        t = norm(fn)
+        if m in ADDERS:
+            first = fn.body[0]
+            if "self.check_value_type(value)" not in norm(first):
+                res.findings.append(Finding("R-LISTPAIR", f"{where} type check",
+                                            f"{where} no longer checks the element type before doing anything: a "
+                                            f"non-ModelingObject is passed to ModelingUpdate first", rel, fn.lineno, where))
+            wrap = [n for n in ast.walk(fn) if isinstance(n, ast.Assign) and isinstance(n.value, ast.Call)
+                    and norm(n.value.func) == "ContextualModelingObjectAttribute"]
+            sup = [cl for cl in _calls(fn) if norm(cl.func) == f"super().{m}"]
+            ok = False
+            if wrap and sup:
+                wname = wrap[0].targets[0].id if isinstance(wrap[0].targets[0], ast.Name) else None
+                handed = norm(sup[0].args[-1]) if sup[0].args else None
+                att = [cl for cl in _calls(fn) if isinstance(cl.func, ast.Attribute) and cl.func.attr ==
+                       "set_modeling_obj_container" and norm(cl.func.value) == wname]
+                ok = handed == wname and att and [norm(a) for a in att[-1].args] == ATTACH_ARGS \
+                    and att[-1].lineno > sup[0].lineno
+            if not ok:
+                res.findings.append(Finding(
+                    "R-LISTPAIR", f"{where} attach",
+                    f"{where}: the element handed to the underlying list is not a fresh ContextualModelingObjectAttribute "
+                    f"attached afterwards with (self.modeling_obj_container, self.attr_name_in_mod_obj_container): the "
+                    f"object's reverse look-ups will not report this list's holder", rel, fn.lineno, where))
+            if m == "__setitem__":
+                # slices are rejected or handled before anything happens
+                handles_slice = "isinstance(index, slice)" in t
+                if not handles_slice:
+                    res.findings.append(Finding(
+                        "R-LISTPAIR", f"{where} slice",
+                        f"{where} treats its index as an int: `lst[i:j] = [...]` runs check_value_type on the list and is "
+                        f"refused (ValueError) although slice assignment is list behaviour", rel, fn.lineno, where))
+        if m in ("pop", "remove", "clear", "__delitem__"):
+            det = [cl for cl in _calls(fn) if isinstance(cl.func, ast.Attribute) and cl.func.attr ==
+                   "set_modeling_obj_container" and [norm(a) for a in cl.args] == ["None", "None"]
+                   and norm(cl.func.value) != "self"]
+            if not det:
+                res.findings.append(Finding("R-LISTPAIR", f"{where} detach",
+                                            f"{where} removes elements without detaching them (None, None): the removed "
+                                            f"object still reports this list's holder as a user", rel, fn.lineno, where))
+                continue
+            recv = norm(det[-1].func.value)
+            params = [a.arg for a in fn.args.args][1:]
+            # where does the detached object come from?
+            src = None
+            for n in ast.walk(fn):
+                if isinstance(n, ast.Assign) and len(n.targets) == 1 and norm(n.targets[0]) == recv:
+                    src = norm(n.value)
+                if isinstance(n, ast.For) and norm(n.target) == recv:
+                    src = "for " + norm(n.iter)
+            if recv in params and src is None:
+                res.findings.append(Finding(
+                    "R-LISTPAIR", f"{where} detaches its argument",
+                    f"{where} detaches its *argument* `{recv}` instead of the element it took out of the list: called "
+                    f"with the model object itself (the natural call; list.remove matches by ==) the update is applied "
+                    f"and then AttributeError is raised, and the stored wrapper is never detached", rel,
+                    det[-1].lineno, where))
+            elif src is not None and src.startswith("self[") and "isinstance(index, slice)" not in t:
+                res.findings.append(Finding(
+                    "R-LISTPAIR", f"{where} slice",
+                    f"{where} detaches `{src}` as if it were one element: with a slice it is a plain list, so "
+                    f"`del lst[i:j]` updates the model and then raises AttributeError", rel, det[-1].lineno, where))
+            elif len(res.samples) < 4:
+                res.samples.append({"mutator": where, "detached": recv, "taken_from": src, "verdict": "stored element"})
+    res.floor = 9
+    return res
+
+
+def _replay(fn):
+    """(operation replayed on the shadow copy, operation applied to the real list) as normalised texts"""
+    shadow = real = None
+    for n in ast.walk(fn):
+        if isinstance(n, ast.Call) and isinstance(n.func, ast.Attribute) and norm(n.func.value) == "copied_list":
+            shadow = (n.func.attr, [norm(a) for a in n.args])
+        if isinstance(n, ast.Assign) and isinstance(n.targets[0], ast.Subscript) and norm(n.targets[0].value) == "copied_list":
+            shadow = ("__setitem__", [norm(n.targets[0].slice), norm(n.value)])
+        if isinstance(n, ast.Delete) and isinstance(n.targets[0], ast.Subscript) and norm(n.targets[0].value) == "copied_list":
+            shadow = ("__delitem__", [norm(n.targets[0].slice)])
+        if isinstance(n, ast.AugAssign) and norm(n.target) == "copied_list":
+            shadow = ({ast.Mult: "__imul__", ast.Add: "__iadd__"}.get(type(n.op), "?"), [norm(n.value)])
+        if isinstance(n, ast.Call) and isinstance(n.func, ast.Attribute) and norm(n.func.value) == "super()" \
+                and n.func.attr != "__init__":
+            real = (n.func.attr, [norm(a) for a in n.args])
+    # idiom: super().pop(self.index(x)) removes the first element equal to x, i.e. list.remove(x), and hands it back
+    if real and real[0] == "pop" and len(real[1]) == 1 and real[1][0].startswith("self.index(") and real[1][0].endswith(")"):
+        real = ("remove", [real[1][0][len("self.index("):-1]])
+    return shadow, real
+
+
+@rule("R-LISTSIB")
+def r_listsib(E):
+    pm = E.pm
+    res = RuleResult("R-LISTSIB", "in each list mutator the operation replayed on the shadow copy handed to ModelingUpdate "
+                                  "is the same operation, with the same arguments, as the one applied to the list itself")
+    rel, c, ms = _cls(pm)
+    W = "ListLinkedToModelingObj"
+    for m in ("__setitem__", "append", "insert", "extend", "pop", "remove", "clear", "__delitem__", "__imul__"):
+        fn = ms.get(m)
+        if fn is None:
+            continue
+        res.instances += 1
+        where = f"{W}.{m}"
+        shadow, real = _replay(fn)
+        mu = [cl for cl in _calls(fn) if isinstance(cl.func, ast.Name) and cl.func.id == "ModelingUpdate"]
+        if not mu:
+            res.findings.append(Finding("R-LISTSIB", f"{where} no update", f"{where} no longer goes through ModelingUpdate",
+                                        rel, fn.lineno, where))
+            continue
+        new_arg = norm(mu[0].args[0]) if mu[0].args else ""
+        if m == "clear":
+            ok = new_arg.endswith(", []]]") and real == ("clear", [])
+        elif m == "extend":
+            loop = next((n for n in ast.walk(fn) if isinstance(n, ast.For)), None)
+            ok = shadow == ("extend", ["values"]) and loop is not None and norm(loop.iter) == "values" and \
+                any(norm(cl.func) == "self.append" and [norm(a) for a in cl.args] == [norm(loop.target)] for cl in _calls(loop))
+        elif m == "__imul__":
+            ok = shadow == ("__imul__", ["n"])
+            res.notes.append("__imul__: the replay on the orphaned receiver (n-1 extends) is not compared (frozen: the "
+                             "shadow copy is what the model ends up holding)")
+        else:
+            if shadow is None or real is None:
+                ok = False
+            else:
+                sargs = [a for a in shadow[1]]
+                rargs = ["value" if a == "value_to_set" else a for a in real[1]]
+                ok = shadow[0] == real[0] == m and sargs == rargs
+        if ok and "copied_list" not in new_arg and m != "clear":
+            ok = False
+        if not ok:
+            res.findings.append(Finding(
+                "R-LISTSIB", f"{where} replay",
+                f"{where}: the shadow copy handed to ModelingUpdate gets {shadow} while the list itself gets {real}: the "
+                f"model ends up holding a list that differs from what the Python operation produces", rel, fn.lineno, where))
+        elif len(res.samples) < 5:
+            res.samples.append({"mutator": where, "shadow": shadow, "real": real, "verdict": "same operation"})
+    res.floor = 9
+    return res
+
+
+# operations that can leave the content unchanged (ModelingUpdate then skips the change)
+NOOP_POSSIBLE = {"extend": "extend([]), += []", "__imul__": "*= 1", "__setitem__": "lst[i] = lst[i]",
+                 "clear": "clear() on an empty list"}
+
+
+@rule("R-LIVE")
+def r_live(E):
+    pm = E.pm
+    res = RuleResult("R-LIVE", "on normal exit of a list mutator the receiver is still the list installed in, and attached "
+                               "to, its container")
+    rel, c, ms = _cls(pm)
+    # summary 1: ModelingUpdate may skip every change (no-op detection)
+    rel2, pc = pm.find_function(MU, "ModelingUpdate.parse_changes_list")
+    may_skip = any(isinstance(n, ast.Compare) and norm(n) == "old_value == new_value" for n in ast.walk(pc)) and \
+        any(isinstance(n, ast.Delete) for n in ast.walk(pc))
+    # summary 2: when it does not skip, it installs a different list object
+    installs_new = any(isinstance(n, ast.Assign) and "ListLinkedToModelingObj(new_value)" in norm(n.value)
+                       for n in ast.walk(pc))
+    W = "ListLinkedToModelingObj"
+    for m in ("__setitem__", "append", "insert", "extend", "pop", "remove", "clear", "__delitem__", "__imul__"):
+        fn = ms.get(m)
+        if fn is None:
+            continue
+        res.instances += 1
+        where = f"{W}.{m}"
+        iff = next((s for s in fn.body if isinstance(s, ast.If) and norm(s.test) == "self.trigger_modeling_updates"), None)
+        if iff is None:
+            continue
+        mu = [s for s in iff.body if "ModelingUpdate(" in norm(s)]
+        det = [s for s in iff.body if norm(s) == "self.set_modeling_obj_container(None, None)"]
+        reinstall = any("replace_in_mod_obj_container" in norm(s) or "__dict__" in norm(s) for s in fn.body)
+        early_return = any(isinstance(s, ast.Return) for s in iff.body)
+        if mu and det and not reinstall and not early_return:
+            cases = []
+            if may_skip and m in NOOP_POSSIBLE:
+                cases.append(f"when the operation changes nothing ({NOOP_POSSIBLE[m]}) ModelingUpdate skips the change, yet "
+                             "the receiver — still the installed list — is detached: its elements lose their reverse "
+                             "links and the next mutation raises")
+            if installs_new:
+                cases.append("when the change is applied the model holds a new list object and the receiver is an "
+                             "orphan: a caller that kept the reference (jobs = step.jobs; jobs.append(a); "
+                             "jobs.append(b)) raises on the second call")
+            if cases:
+                res.findings.append(Finding(
+                    "R-LIVE", f"{where} detaches the receiver",
+                    f"{where} unconditionally detaches the receiver after ModelingUpdate: " + "; ".join(cases),
+                    rel, det[0].lineno, where))
+        elif len(res.samples) < 3:
+            res.samples.append({"mutator": where, "verdict": "receiver stays installed"})
+    res.breakdown = {"ModelingUpdate_may_skip_a_no_op_change": may_skip, "ModelingUpdate_installs_a_new_list": installs_new}
+    res.floor = 9
+    return res
